@@ -64,63 +64,79 @@ pub fn check_merge(parts: &[Part], r: &CharPartition, what: &str, o: &mut Outcom
         }
         prev_end = Some(b);
     }
-    let mut all: Vec<(u32, u32)> = riv.clone();
-    for p in parts {
-        all.extend(p);
+    // segments of [0, MAX] induced by all end points (inputs and result); sweep with binary searches,
+    // so that the oracle has no size limit
+    let mut cuts: Vec<u32> = vec![0];
+    for &(a, b) in riv.iter().chain(parts.iter().flat_map(|p| p.iter())) {
+        cuts.push(a);
+        if b < MAX {
+            cuts.push(b + 1);
+        }
     }
-    if all.len() > 60 {
-        // universe limited to 128 segments
-        return;
-    }
-    let u = Universe::from_intervals(&all);
-    // label of every segment = tuple of classes in the inputs
-    let label = |seg: usize| -> Vec<Option<usize>> { parts.iter().map(|p| class_of(p, u.segs[seg].0)).collect() };
+    cuts.sort_unstable();
+    cuts.dedup();
+    let find = |ivs: &[(u32, u32)], c: u32| -> Option<usize> {
+        // ivs sorted and disjoint
+        let k = ivs.partition_point(|&(_, hi)| hi < c);
+        if k < ivs.len() && ivs[k].0 <= c {
+            Some(k)
+        } else {
+            None
+        }
+    };
+    let sorted_inputs: Vec<bool> = parts.iter().map(|p| p.windows(2).all(|w| w[0].1 < w[1].0)).collect();
+    let label = |c: u32| -> Vec<Option<usize>> { parts.iter().enumerate().map(|(k, p)| if sorted_inputs[k] { find(p, c) } else { class_of(p, c) }).collect() };
     let all_comp = |l: &Vec<Option<usize>>| l.iter().all(|x| x.is_none());
-    // (1) within a class of r labels are constant; intervals of r carry no all-complement label
-    let mut covered = 0u128;
-    for &(a, b) in &riv {
-        let m = u.mask(a, b);
-        covered |= m;
-        let segs: Vec<usize> = (0..u.len()).filter(|i| m & (1 << i) != 0).collect();
-        let l0 = label(segs[0]);
-        if all_comp(&l0) {
-            o.fail("C12/interval-outside-inputs", desc());
-            return;
-        }
-        for &s in &segs[1..] {
-            if label(s) != l0 {
-                o.fail("C12/class-mixes-input-classes", desc());
-                return;
+    let mut prev: Option<(usize, Vec<Option<usize>>)> = None; // (interval of r, label) of the previous covered segment
+    let mut uncovered_witness: Option<u32> = None;
+    let mut first_label_of: Vec<Option<Vec<Option<usize>>>> = vec![None; riv.len()];
+    for &c in &cuts {
+        let l = label(c);
+        match find(&riv, c) {
+            Some(k) => {
+                // (1) intervals of r carry no all-complement label, and one label only
+                if all_comp(&l) {
+                    o.fail("C12/interval-outside-inputs", desc());
+                    return;
+                }
+                if let Some((pk, pl)) = &prev {
+                    if *pk == k && *pl != l {
+                        o.fail("C12/class-mixes-input-classes", desc());
+                        return;
+                    }
+                }
+                if first_label_of[k].is_none() {
+                    first_label_of[k] = Some(l.clone());
+                }
+                prev = Some((k, l));
             }
-        }
-    }
-    // (2) the complement of r is exactly the intersection of the input complements
-    for s in 0..u.len() {
-        let in_r = covered & (1 << s) != 0;
-        if !in_r && !all_comp(&label(s)) {
-            o.fail("C12/loses-characters", desc());
-            return;
+            None => {
+                // (2) the complement of r is exactly the intersection of the input complements
+                if !all_comp(&l) {
+                    o.fail("C12/loses-characters", desc());
+                    return;
+                }
+                if uncovered_witness.is_none() {
+                    uncovered_witness = Some(c);
+                }
+                prev = None;
+            }
         }
     }
     // (3) maximality: two adjacent intervals of r never have the same label
-    for w in riv.windows(2) {
-        if w[0].1 + 1 == w[1].0 {
-            let l1 = label(u.seg_of(w[0].0));
-            let l2 = label(u.seg_of(w[1].0));
-            if l1 == l2 {
-                o.fail("C12/not-maximal", desc());
-                return;
-            }
+    for (k, w) in riv.windows(2).enumerate() {
+        if w[0].1 + 1 == w[1].0 && first_label_of[k].is_some() && first_label_of[k] == first_label_of[k + 1] {
+            o.fail("C12/not-maximal", desc());
+            return;
         }
     }
     // (4) complement witness
-    let comp_mask = u.full_mask() & !covered;
     let w = r.pick_complement();
-    if comp_mask == 0 {
+    if uncovered_witness.is_none() {
         if !r.empty_complement() || w != MAX + 1 {
             o.fail("C12/witness", format!("{}: complement is empty but empty_complement() = {}, witness = {:#x}", desc(), r.empty_complement(), w));
         }
-    } else if r.empty_complement() || w > MAX || comp_mask & (1 << u.seg_of(w)) == 0 {
+    } else if r.empty_complement() || w > MAX || find(&riv, w).is_some() {
         o.fail("C12/witness", format!("{}: witness {:#x} / empty_complement() = {} wrong", desc(), w, r.empty_complement()));
     }
 }
@@ -169,9 +185,77 @@ pub fn check_list(parts: &[Part], o: &mut Outcome) {
             o.fail("C12/order-dependent", format!("merge_partition_list of {:?} depends on the order (rotation)", parts.iter().map(|p| show_part(p)).collect::<Vec<_>>()));
         }
     }
+    // the argument is "an iterator": the same list through adaptors whose size_hint is inexact or
+    // whose items arrive lazily must give the same fold
+    o.evals += 3;
+    let shapes: [(&str, CharPartition); 3] = [
+        ("filter", merge_partition_list(built.iter().filter(|_| true))),
+        ("once+chain+skip_while", {
+            let extra = CharPartition::new();
+            merge_partition_list(std::iter::once(&extra).chain(built.iter().skip_while(|_| false)))
+        }),
+        ("from_fn", {
+            let mut k = 0;
+            merge_partition_list(std::iter::from_fn(|| {
+                k += 1;
+                built.get(k - 1)
+            }))
+        }),
+    ];
+    for (name, r3) in &shapes {
+        if !same(r3, &r) {
+            o.fail("C12/iterator-shape", format!("merge_partition_list of {:?} gives a different result when the list is passed through {}", parts.iter().map(|p| show_part(p)).collect::<Vec<_>>(), name));
+        }
+    }
     // empty list -> empty partition
     if parts.is_empty() && !same(&r, &CharPartition::new()) {
         o.fail("C12/neutral", "merge_partition_list([]) is not the empty partition".into());
+    }
+}
+
+/// Alphabet-sized partitions: every character its own interval, except `holes` left uncovered or
+/// `blocks` kept as longer intervals; merged with small partitions that cover / cut those places.
+/// Judged by the same oracle as every other case (check_pair); the probe set of the oracle is derived
+/// from the interval end points, so it is restricted here to the neighbourhood of the special places.
+fn scale_cases(sink: &mut EnumSink) {
+    let singletons_except = |skip: &dyn Fn(u32) -> bool| -> Part { (0..=MAX).filter(|&c| !skip(c)).map(|c| (c, c)).collect() };
+    let cases: Vec<(Part, Part, &str)> = vec![
+        (singletons_except(&|c| c == 0x1234), vec![(0x1230, 0x1238)], "all singletons but one hole x an interval over the hole"),
+        (singletons_except(&|c| c == 0x1234), vec![], "all singletons but one hole x the empty partition"),
+        (singletons_except(&|c| c == MAX), vec![(MAX - 3, MAX)], "all singletons but MAX x an interval ending at MAX"),
+        (singletons_except(&|c| c == 0), vec![(0, 0)], "all singletons but 0 x {[0,0]}"),
+        (singletons_except(&|_| false), vec![(7, 9000)], "the discrete partition x one interval"),
+        (singletons_except(&|c| c % 2 == 1), vec![(100, 200), (0x2F000, MAX)], "all even singletons x two intervals"),
+    ];
+    for (big, small, what) in cases {
+        let mut o = Outcome::default();
+        scale_pair(&big, &small, &mut o);
+        sink.case(&o, true, || format!("scale case: {}", what));
+        if sink.failed() {
+            return;
+        }
+    }
+    sink.stats.exhaustive_spaces.push("6 scale cases with partitions of 98 304 - 196 608 singleton intervals".to_string());
+}
+
+/// merge of an alphabet-sized partition with a small one, in both orders and as a list
+fn scale_pair(big: &Part, small: &Part, o: &mut Outcome) {
+    let a = build(big);
+    let b = build(small);
+    let show = |p: &Part| if p.len() > 8 { format!("<{} intervals>", p.len()) } else { show_part(p) };
+    for (r, parts, what) in [
+        (merge_partitions(&a, &b), vec![big.clone(), small.clone()], "merge_partitions(big, small)"),
+        (merge_partitions(&b, &a), vec![small.clone(), big.clone()], "merge_partitions(small, big)"),
+        (merge_partition_list([&a, &b].into_iter()), vec![big.clone(), small.clone()], "merge_partition_list([big, small])"),
+    ] {
+        let before = o.fails.len();
+        check_merge(&parts, &r, what, o);
+        if o.fails.len() > before {
+            // the generic message would print ~200 000 intervals
+            let f = o.fails.last_mut().unwrap();
+            f.msg = format!("{} with big = {}, small = {}: result has {} intervals, empty_complement() = {}, witness {:#x}", what, show(big), show(small), r.len(), r.empty_complement(), r.pick_complement());
+            return;
+        }
     }
 }
 
@@ -329,6 +413,10 @@ pub fn enumerate(n_pairs: u32, n_triples: u32, part: usize, parts: usize, sink: 
         if sink.failed() {
             return;
         }
+    }
+    // scale cases: partitions with (almost) as many intervals as the alphabet has characters
+    if part == parts - 1 {
+        scale_cases(sink);
     }
     if part == 0 {
         sink.stats.exhaustive_spaces.push(format!(
